@@ -347,6 +347,14 @@ def check(case, ctx):
                 ctx.fail('ion-number', b - a, f.number, **info)
             if bool(f.internal) != (a != 0 and b != n):
                 ctx.fail('ion-internal-flag', a != 0 and b != n, f.internal, **info)
+    # ---- labels identify ions: two different (type, span, charge, isotope, loss) combinations of one call never share a label
+    seen_labels = {}
+    for f in frs:
+        k = (f.ion_type, f.start, f.end, f.charge, f.isotope, round(f.loss, 6))
+        other = seen_labels.setdefault(f.label, k)
+        if other != k:
+            ctx.fail('label-collision', [list(other), list(k)], f.label, text=s)
+            break
     # ---- clause 3: the other return types are projections of the fragment list
     if case.get('proj'):
         for rt, proj in (('mass', lambda f: f.mass), ('mz', lambda f: f.mz), ('label', lambda f: f.label),
